@@ -1,0 +1,102 @@
+//go:build verif
+
+package referenceserver
+
+// Contracts for raw_response.go (C17).
+//
+// rawResponseWriter decides, once, between two outcomes: the handler's own response is
+// passed through (startedResponse) or a raw response is sent instead (rawResp != nil).
+// The monitor invariant says they exclude each other; every handler-side method goes
+// through canSendResponse, so once a raw response is recorded nothing of the handler
+// reaches the wrapped writer.
+
+//@ guarded rawResponseWriter: rawResp, startedResponse by mu
+//@ monitor rawResponseWriter by mu: !(self.rawResp != nil && self.startedResponse)
+
+//@ func (*rawResponseWriter).canSendResponse
+//@   requires r != nil && !held[r.mu]
+//@   modifies held, rawResponseWriter.startedResponse
+//@   ensures !held[r.mu]
+//@   ensures @handler result ==> r.startedResponse
+//@   ensures @raw !result ==> r.rawResp != nil && !r.startedResponse
+
+//@ func (*rawResponseWriter).rawResponse
+//@   requires r != nil && !held[r.mu]
+//@   modifies held
+//@   ensures !held[r.mu] && result == r.rawResp
+
+//@ func (*rawResponseWriter).setRawResponse
+//@   requires r != nil && !held[r.mu]
+//@   modifies held, rawResponseWriter.rawResp
+//@   ensures !held[r.mu]
+//@   ensures @recorded result ==> r.rawResp == resp && !r.startedResponse
+//@   ensures @refused !result ==> r.startedResponse
+
+// Handler-side methods: either the wrapped writer sees exactly this call, or it sees nothing
+// and the handler is told everything was written.
+//@ func (*rawResponseWriter).Write
+//@   requires r != nil && r.respWriter != nil && !held[r.mu]
+//@   modifies held, rawResponseWriter.startedResponse, lastWriteN, lastWriteErr, wrOut
+//@   ensures @either (r.rawResp != nil && wrOut == old(wrOut) && result_0 == len(bytes) && result_1 == nil) ||
+//@        (r.startedResponse && result_0 == lastWriteN[r.respWriter] && result_1 == lastWriteErr[r.respWriter])
+//@   ensures @others forall w io.Writer :: w != r.respWriter ==> wrOut[w] == old(wrOut[w])
+//@   ensures !held[r.mu]
+
+//@ func (*rawResponseWriter).WriteHeader
+//@   requires r != nil && r.respWriter != nil && !held[r.mu]
+//@   modifies held, rawResponseWriter.startedResponse, rwStatusN, rwStatus
+//@   ensures @either (r.rawResp != nil && rwStatusN == old(rwStatusN) && rwStatus == old(rwStatus)) ||
+//@        (r.startedResponse && rwStatusN[r.respWriter] == old(rwStatusN[r.respWriter]) + 1 && rwStatus[r.respWriter] == statusCode)
+//@   ensures !held[r.mu]
+
+//@ spec wfRawResponse(resp *conformancev1.RawHTTPResponse) bool =
+//@    (typeis(resp.Body, *conformancev1.RawHTTPResponse_Unary) ==> unbox(resp.Body, *conformancev1.RawHTTPResponse_Unary) != nil && knownData(unbox(resp.Body, *conformancev1.RawHTTPResponse_Unary).Unary)) &&
+//@    (typeis(resp.Body, *conformancev1.RawHTTPResponse_Stream) ==> unbox(resp.Body, *conformancev1.RawHTTPResponse_Stream) != nil && unbox(resp.Body, *conformancev1.RawHTTPResponse_Stream).Stream != nil &&
+//@         wfItems(unbox(resp.Body, *conformancev1.RawHTTPResponse_Stream).Stream.Items))
+//@ spec rawBodyWire(resp *conformancev1.RawHTTPResponse) string =
+//@    typeis(resp.Body, *conformancev1.RawHTTPResponse_Unary) ? msgWire(unbox(resp.Body, *conformancev1.RawHTTPResponse_Unary).Unary) :
+//@    (typeis(resp.Body, *conformancev1.RawHTTPResponse_Stream) ?
+//@        streamWire(unbox(resp.Body, *conformancev1.RawHTTPResponse_Stream).Stream.Items, len(unbox(resp.Body, *conformancev1.RawHTTPResponse_Stream).Stream.Items)) : "")
+//@ elemvalues []*conformancev1.Header: v != nil
+
+// finish: with a raw response recorded, the wrapped writer gets the given status (200 if
+// unset), exactly one Header.Add per given header value in order, one "Trailer" declaration
+// per trailer, the body encoded by the raw body encoders (nothing else is written), then one
+// Add per trailer value under the trailer prefix; before that every header the handler may
+// have set is removed and the snapshot taken before the handler ran is restored.
+// rawErr[0] is the (discarded) result of the body encoder.
+//@ func (*rawResponseWriter).finish
+//@   option weakrange
+//@   requires r != nil && r.respWriter != nil && !held[r.mu] && snapshotHeaders != nil && hAddN[0] >= 0
+//@   requires r.rawResp != nil ==> wfRawResponse(r.rawResp)
+//@   modifies held, hAddN, hAddH, hAddKey, hAddVal, map[string][]string, rwStatusN, rwStatus, wrOut, bufContent, cmpDst, cmpBuf, cmpBase, cmpBaseB, rawErr
+//@   ensures !held[r.mu]
+//@   ensures @none r.rawResp == nil ==> wrOut == old(wrOut) && rwStatusN == old(rwStatusN) && hAddN == old(hAddN)
+//@   ensures @status r.rawResp != nil ==> rwStatusN[r.respWriter] == old(rwStatusN[r.respWriter]) + 1 &&
+//@        rwStatus[r.respWriter] == (r.rawResp.StatusCode == 0 ? 200 : r.rawResp.StatusCode)
+//@   ensures @body r.rawResp != nil && rawErr[0] == nil ==> streq(wrOut[r.respWriter], old(wrOut[r.respWriter]) + old(rawBodyWire(r.rawResp)))
+//@   ensures @addcount r.rawResp != nil ==> hAddN[0] == old(hAddN[0]) + flatLen(r.rawResp.Headers, len(r.rawResp.Headers)) + len(r.rawResp.Trailers) + flatLen(r.rawResp.Trailers, len(r.rawResp.Trailers))
+//@   ensures @headers r.rawResp != nil ==> forall j int, i int :: 0 <= j && j < len(r.rawResp.Headers) && 0 <= i && i < len(r.rawResp.Headers[j].Value) ==>
+//@        hAddH[at(old(hAddN[0]) + flatLen(r.rawResp.Headers, j), i)] == rwHeaderOf(r.respWriter) &&
+//@        hAddKey[at(old(hAddN[0]) + flatLen(r.rawResp.Headers, j), i)] == r.rawResp.Headers[j].Name &&
+//@        hAddVal[at(old(hAddN[0]) + flatLen(r.rawResp.Headers, j), i)] == r.rawResp.Headers[j].Value[i]
+//@   ensures @declared r.rawResp != nil ==> forall t int :: 0 <= t && t < len(r.rawResp.Trailers) ==>
+//@        hAddH[old(hAddN[0]) + flatLen(r.rawResp.Headers, len(r.rawResp.Headers)) + t] == rwHeaderOf(r.respWriter) &&
+//@        hAddKey[old(hAddN[0]) + flatLen(r.rawResp.Headers, len(r.rawResp.Headers)) + t] == "Trailer" &&
+//@        hAddVal[old(hAddN[0]) + flatLen(r.rawResp.Headers, len(r.rawResp.Headers)) + t] == r.rawResp.Trailers[t].Name
+//@   ensures @trailers r.rawResp != nil ==> forall j int, i int :: 0 <= j && j < len(r.rawResp.Trailers) && 0 <= i && i < len(r.rawResp.Trailers[j].Value) ==>
+//@        hAddH[at(old(hAddN[0]) + flatLen(r.rawResp.Headers, len(r.rawResp.Headers)) + len(r.rawResp.Trailers) + flatLen(r.rawResp.Trailers, j), i)] == rwHeaderOf(r.respWriter) &&
+//@        hAddKey[at(old(hAddN[0]) + flatLen(r.rawResp.Headers, len(r.rawResp.Headers)) + len(r.rawResp.Trailers) + flatLen(r.rawResp.Trailers, j), i)] == "Trailer:" + r.rawResp.Trailers[j].Name &&
+//@        hAddVal[at(old(hAddN[0]) + flatLen(r.rawResp.Headers, len(r.rawResp.Headers)) + len(r.rawResp.Trailers) + flatLen(r.rawResp.Trailers, j), i)] == r.rawResp.Trailers[j].Value[i]
+//@   loop 2: invariant hAddN[0] == atpre(hAddN[0]) + flatLen(resp.Headers, len(resp.Headers)) + rangeindex + 1
+//@           invariant resp == r.rawResp && resp != nil && wrOut == atpre(wrOut) && rwStatusN == atpre(rwStatusN) && rwStatus == atpre(rwStatus) && !held[r.mu]
+//@           invariant forall j int, i int :: 0 <= j && j < len(resp.Headers) && 0 <= i && i < len(resp.Headers[j].Value) ==>
+//@               hAddH[at(atpre(hAddN[0]) + flatLen(resp.Headers, j), i)] == rwHeaderOf(r.respWriter)
+//@           invariant forall j int, i int :: 0 <= j && j < len(resp.Headers) && 0 <= i && i < len(resp.Headers[j].Value) ==>
+//@               hAddKey[at(atpre(hAddN[0]) + flatLen(resp.Headers, j), i)] == resp.Headers[j].Name
+//@           invariant forall j int, i int :: 0 <= j && j < len(resp.Headers) && 0 <= i && i < len(resp.Headers[j].Value) ==>
+//@               hAddVal[at(atpre(hAddN[0]) + flatLen(resp.Headers, j), i)] == resp.Headers[j].Value[i]
+//@           invariant forall t int :: 0 <= t && t <= rangeindex ==>
+//@               hAddH[atpre(hAddN[0]) + flatLen(resp.Headers, len(resp.Headers)) + t] == rwHeaderOf(r.respWriter) &&
+//@               hAddKey[atpre(hAddN[0]) + flatLen(resp.Headers, len(resp.Headers)) + t] == "Trailer" &&
+//@               hAddVal[atpre(hAddN[0]) + flatLen(resp.Headers, len(resp.Headers)) + t] == resp.Trailers[t].Name
